@@ -7,7 +7,7 @@ from ..prng import Rng, derive
 from . import seqcommon
 
 RULE = ('write programs (the C09 operation space plus raw db.insert / db.execute statements inside the session, '
-        'multi-flush sessions, mid-session commits) for optimistic, immediate, optimistic=False and serializable '
+        'multi-flush sessions, mid-session commits, obj.flush() of a new / changed / deleted object as a session\'s first write) for optimistic, immediate, optimistic=False and serializable '
         'sessions on a file database, PRAGMA cache_size=1 in part of the runs so that uncommitted pages really reach '
         'the file. (a) crash points, exhaustive per program: the database files are copied before every DB-API call '
         'and after the last one; every distinct copy is opened by a fresh connection (hot-journal recovery) and must '
@@ -30,7 +30,8 @@ COMPONENTS = {
 }
 
 W = {'new': 8, 'set': 6, 'setmany': 2, 'rel': 4, 'add': 4, 'remove': 3, 'assign': 2, 'clear': 1, 'create_in': 3, 'del': 4,
-     'flush': 3, 'commit': 2, 'rollback': 1, 'raw_log': 4, 'r_select': 1, 'seq_in': 1}
+     'flush': 3, 'commit': 2, 'rollback': 1, 'raw_log': 4, 'r_select': 1, 'seq_in': 1, 'oflush': 1, 'oflush_new': 1,
+     'oflush_del': 1}
 OPTS = [({}, 6), ({'immediate': True}, 2), ({'optimistic': False}, 1), ({'serializable': True}, 2)]
 
 
@@ -44,6 +45,12 @@ def gen_program(seed, i, tier):
         for j in range(r.randint(3, 10)):
             op = 'new' if (s == 0 and j < 2) else r.weighted(pairs)
             ops.append([op, r.below(1000), r.below(1000), r.below(1000)])
+        if s >= 1 and r.chance(0.3):
+            # the session's first write goes out through obj.flush() (one object, outside SessionCache.flush):
+            # of a new object, of a changed one or of a deleted one
+            first, fl = r.choice([('new', 'oflush_new'), ('del', 'oflush_del'), ('del', 'oflush_del'), ('set', 'oflush')])
+            x = r.below(1000)
+            ops[0:0] = [[first, x, r.below(1000), r.below(1000)], [fl, x, r.below(1000), r.below(1000)]]
         sessions.append({'opts': r.weighted(OPTS), 'ops': ops, 'end': r.weighted([('exit', 8), ('raise', 1), ('rollback', 1)])})
     knobs = {'fetch': r.below(2)}
     if r.chance(0.5):
